@@ -21,6 +21,7 @@ import FtProofs.Lemmas.KernelRun
 import FtProofs.Lemmas.KernelTile
 import FtProofs.Lemmas.KernelSplit
 import FtProofs.Lemmas.KernelSwizzle
+import FtProofs.Lemmas.KernelContent
 set_option linter.unusedSectionVars false
 set_option linter.unusedSimpArgs false
 set_option linter.unusedVariables false
@@ -91,6 +92,32 @@ theorem kernel_content (style : Style) (U : List κ) (hU : Asc U) (order : List 
     simp
   · intro pv hpv
     exact content_ne_default (0 : Int) zr.length _ pv hpv
+
+/-- … as lists (the form the driver evaluates on the implementation's output): for any
+    lexicographically ascending list `cands` of points that contains every point where the dense
+    result is non-zero, the content list of the output is exactly `denseOn … cands`: the candidate
+    points with a non-zero dense value, in order, each with that value. -/
+theorem kernel_content_list (style : Style) (U : List κ) (hU : Asc U) (order : List Nat) (ops : List (Cur κ))
+    (zr : List Nat) (hnd : order.Nodup) (hok : OpsOK U order ops) (hzr : zr.Sublist order)
+    (σ0 : Nat → κ) (cands : List (List κ)) (hc : cands.Pairwise (fun a b => lexLt a b = true))
+    (hlen : ∀ q ∈ cands, q.length = zr.length)
+    (hcov : ∀ q, q.length = zr.length → einsum U order ops (fun σ => zr.map σ) q σ0 ≠ 0 → q ∈ cands) :
+    content (0 : Int) zr.length (run style order ops zr (defaultTree (0 : Int) zr.length)) =
+      denseOn U order ops (fun σ => zr.map σ) σ0 cands := by
+  obtain ⟨hw, hv⟩ := kernel_denote style U hU order ops zr (defaultTree (0 : Int) zr.length) hnd hok hzr
+    (wf_defaultTree (0 : Int) zr.length)
+  apply lexSorted_ext _ _ (content_lexSorted (0 : Int) zr.length _ hw)
+    (denseOn_lexSorted U order ops _ σ0 cands hc)
+  rintro ⟨p, v⟩
+  rw [mem_content_iff (0 : Int) zr.length _ hw p v, mem_denseOn]
+  constructor
+  · rintro ⟨hl, hval, hne⟩
+    rw [hv σ0 p hl, val_defaultTree, Int.zero_add] at hval
+    exact ⟨hcov p hl (hval ▸ hne), hval.symm, hne⟩
+  · rintro ⟨hq, hval, hne⟩
+    have hl := hlen p hq
+    refine ⟨hl, ?_, hne⟩
+    rw [hv σ0 p hl, val_defaultTree, Int.zero_add, hval]
 
 /-- **either intersection style**: two-finger (`&`), leader-follower, and leader-follower with the
     emptiness filter give outputs with the same value at every point -/
@@ -431,6 +458,10 @@ example : ([0, 2] : List Nat).Sublist [0, 1, 2] := by decide
   == [([0, 0], 1), ([0, 2], 10), ([2, 2], -5)]
 #guard einsum exU [0, 1, 2] exOps (fun σ => [0, 2].map σ) [0, 2] (fun _ => 0) == 10
 #guard dsum exU [0, 1, 2] [0, 2] [0, 0] (prodVal exOps) (fun _ => 0) == 1
+-- the content list is the dense result over all points of the shape (kernel_content_list)
+example : (points exU 2).Pairwise (fun a b => lexLt a b = true) := by decide
+#guard content (0 : Int) 2 (run .lf [0, 1, 2] exOps [0, 2] (defaultTree 0 2))
+  == denseOn exU [0, 1, 2] exOps (fun σ => [0, 2].map σ) (fun _ => 0) (points exU 2)
 -- swizzling B (ranks k,j) with guide [1,0] gives Bt (ranks j,k): the same tensor
 example : SameTensor (Cur.ofTree [1, 2] (0 + 2) rfl exB) (Cur.ofTree [2, 1] (0 + 2) rfl exBt) := by
   have h := (swizzle_same_tensor exU 0 2 [1, 0] (by decide) [1, 2] [] rfl rfl exB
